@@ -4,6 +4,8 @@ from __future__ import annotations
 
 import ast
 
+import numpy as np
+
 from .. import AnalysisError
 from ..astutil import attr_chain, bind_call, raises_class, walk_stmts
 from ..excflow import IODATA_ERRORS, ExcFlow, _classes_of_handler, report_escapes
@@ -257,6 +259,7 @@ def run(ctx):
                 ctx.violate("R5", f"array field {ci.name}.{name} has no validate_shape validator", relpath=ci.module.relpath, function=ci.qualname, construct=f"field {name}")
     ctx.floor("R5", nf, 20, "array-valued fields")
     check_validate_shape(ctx, "R5")
+    check_validator_schema(ctx, "R5")
     check_line_counter(ctx)
     check_parallel_lists(ctx)
     check_parse_before_back(ctx)
@@ -546,61 +549,66 @@ def check_line_counter(ctx):
 
 
 def check_validate_shape(ctx, rid):
-    """The shape validator compares every axis unless its expected size is None (shared by C07-R5 and C12-R1)."""
+    """The shape validator, evaluated on a decision table (shared by C07-R5, C11-R6 and C12-R1).
+
+    The closure returned by `validate_shape(*requirements)` is interpreted for requirement tuples of every documented
+    kind (integer, None, attribute name, (attribute, axis) pair) against object attributes and value shapes chosen so
+    that each clause decides at least one row: an expected size of 0 is a size, None is the only wildcard, the number
+    of dimensions counts, a mismatch is a TypeError and nothing else is."""
+    from ..accessors import AccessorEval, Raised, Rec
+    from ..symarr import NotSymbolic
+
     prog = ctx.prog
-    # the validator itself: every axis is compared unless its expected size is None
     vs = prog.func("iodata.attrutils.validate_shape")
     inner = [g for g in vs.nested.values()]
     if len(inner) != 1:
         raise AnalysisError("validate_shape no longer has a single validator closure")
     val = inner[0]
-    axis_pred = None
-    ndim_checked = False
-    for n in val.own_nodes():
-        if isinstance(n, ast.Compare) and len(n.ops) == 1 and isinstance(n.ops[0], (ast.NotEq, ast.Eq)):
-            t = src_of(n)
-            if t.replace("!=", "==") in ("len(expected_shape) == len(observed_shape)", "len(observed_shape) == len(expected_shape)"):
-                ndim_checked = True
-        if isinstance(n, ast.For) and isinstance(n.iter, ast.Call) and getattr(n.iter.func, "id", "") == "zip" and isinstance(n.target, ast.Tuple) and len(n.target.elts) == 2:
-            es, osn = (e.id for e in n.target.elts)
-            skips = []
-            mism = []
-            for st in n.body:
-                if isinstance(st, ast.If):
-                    kinds = {type(x).__name__ for x in st.body}
-                    if any(isinstance(x, ast.Continue) for x in st.body):
-                        skips.append(" ".join(src_of(st.test).split()))
-                    else:
-                        mism.append(" ".join(src_of(st.test).split()))
-            axis_pred = (skips, mism, es, osn, n)
-        if isinstance(n, ast.Call) and getattr(n.func, "id", "") == "all" and n.args and isinstance(n.args[0], ast.GeneratorExp):
-            g = n.args[0]
-            if len(g.generators) == 1 and isinstance(g.generators[0].iter, ast.Call) and getattr(g.generators[0].iter.func, "id", "") == "zip" and isinstance(g.generators[0].target, ast.Tuple):
-                es, osn = (e.id for e in g.generators[0].target.elts)
-                e = g.elt
-                if isinstance(e, ast.BoolOp) and isinstance(e.op, ast.Or) and len(e.values) == 2:
-                    axis_pred = ([" ".join(src_of(e.values[0]).split())], [" ".join(src_of(ast.UnaryOp(op=ast.Not(), operand=e.values[1])).split())], es, osn, n)
-                else:
-                    axis_pred = ([], [src_of(e)], es, osn, n)
-    if axis_pred is None:
-        ctx.violate(rid, "validate_shape: cannot find the per-axis comparison of expected and observed shape", val, val.node, construct="axis comparison")
+    req_name = vs.node.args.vararg.arg if vs.node.args.vararg is not None else (vs.posparams[0] if vs.posparams else None)
+    if req_name is None:
+        raise AnalysisError("validate_shape: cannot tell how the requirements are passed")
+    arr = lambda *shape: np.zeros(shape)
+    obj = lambda **kw: Rec(None, **kw)
+    ok, te = None, "TypeError"
+    rows = [
+        ("(3,) against shape (3,)", (3,), obj(), arr(3), ok),
+        ("(3,) against shape (2,)", (3,), obj(), arr(2), te),
+        ("(3,) against shape (3, 1): the number of dimensions counts", (3,), obj(), arr(3, 1), te),
+        ("(None, 3) against shape (5, 3): None is a wildcard", (None, 3), obj(), arr(5, 3), ok),
+        ("(None, 3) against shape (5, 2)", (None, 3), obj(), arr(5, 2), te),
+        ("(None, 3) against shape (3,)", (None, 3), obj(), arr(3), te),
+        ("(0,) against shape (0,): an expected size of 0 is a size", (0,), obj(), arr(0), ok),
+        ("(0,) against shape (2,): an expected size of 0 is a size", (0,), obj(), arr(2), te),
+        ("('natom', 3) with natom = 4 against shape (4, 3)", ("natom", 3), obj(natom=4), arr(4, 3), ok),
+        ("('natom', 3) with natom = 4 against shape (5, 3)", ("natom", 3), obj(natom=4), arr(5, 3), te),
+        ("('natom',) with natom = 0 against shape (2,)", ("natom",), obj(natom=0), arr(2), te),
+        ("(('coeffs', 1),) with coeffs of shape (2, 3) against length 3", (("coeffs", 1),), obj(coeffs=arr(2, 3)), arr(3), ok),
+        ("(('coeffs', 1),) with coeffs of shape (2, 3) against length 2", (("coeffs", 1),), obj(coeffs=arr(2, 3)), arr(2), te),
+        ("(('coeffs', 0), ('kinds', 0)) with coeffs (2, 3), two kinds, against shape (2, 2)", (("coeffs", 0), ("kinds", 0)), obj(coeffs=arr(2, 3), kinds=["c", "p"]), arr(2, 2), ok),
+        ("(('coeffs', 0), ('kinds', 0)) with coeffs (2, 3), two kinds, against shape (3, 2)", (("coeffs", 0), ("kinds", 0)), obj(coeffs=arr(2, 3), kinds=["c", "p"]), arr(3, 2), te),
+        ("(('coeffs', 1),) while coeffs is not set", (("coeffs", 1),), obj(coeffs=None), arr(3), te),
+        ("(('coeffs', 2),) with a two-dimensional coeffs", (("coeffs", 2),), obj(coeffs=arr(2, 3)), arr(3), te),
+        ("(3,) against a list of three items", (3,), obj(), [1, 2, 3], ok),
+        ("(3,) against a list of two items", (3,), obj(), [1, 2], te),
+    ]
+    bad = []
+    for label, req, o, value, want in rows:
+        ev = AccessorEval(prog, None, limit=2000)
+        ev.module = vs.module
+        local = {req_name: tuple(req), val.posparams[0]: o, val.posparams[1]: Rec(None, name="field"), val.posparams[2]: value}
+        try:
+            ev._block(val.body, local)
+            got = ok
+        except Raised as exc:
+            got = exc.args[0]
+        except NotSymbolic as exc:
+            raise AnalysisError(f"validate_shape is outside the evaluation whitelist: {exc}") from exc
+        if got != want:
+            bad.append(f"{label}: {'accepted' if got is None else 'raises ' + got}, expected {'acceptance' if want is None else want}")
+    if bad:
+        ctx.violate(rid, f"validate_shape, {bad[0]} ({len(bad)} of {len(rows)} rows of the decision table differ)", val, val.node, construct=f"validate_shape: {bad[0]}"[:170])
     else:
-        skips, mism, es, osn, node = axis_pred
-        ok_skip = skips in ([f"{es} is None"], [])
-        ok_mism = mism and all(m in (f"{es} != {osn}", f"{osn} != {es}", f"not {es} == {osn}", f"not {osn} == {es}") for m in mism)
-        if ok_skip and ok_mism and skips:
-            ctx.ok(rid, f"validate_shape compares every axis; the only wildcard is `{es} is None`", f"{val.module.relpath}:{node.lineno}")
-        elif not ok_skip:
-            ctx.violate(rid, f"validate_shape skips an axis when `{skips}`: only `{es} is None` is a wildcard (an expected size of 0 must still be compared)", val, node, construct=f"axis wildcard {skips}")
-        else:
-            ctx.violate(rid, f"validate_shape axis comparison is `{mism}` with wildcard `{skips}`; expected `{es} != {osn}` unless `{es} is None`", val, node, construct=f"axis comparison {mism}")
-    if ndim_checked:
-        ctx.ok(rid, "validate_shape compares the number of dimensions", val.where)
-    else:
-        ctx.violate(rid, "validate_shape does not compare the number of dimensions", val, val.node, construct="ndim comparison")
-    rs = [n for n in val.own_nodes() if isinstance(n, ast.Raise)]
-    if not rs or not all(raises_class(r) in ("TypeError", "ValueError") for r in rs):
-        ctx.violate(rid, "validate_shape does not raise TypeError on a mismatch", val, val.node, construct="validator raise")
+        ctx.ok(rid, f"validate_shape evaluated on {len(rows)} rows (integers incl. 0, None, attribute names, (attribute, axis) pairs, lists): TypeError exactly on a mismatch", f"{val.module.relpath}:{val.lineno}")
 
 
 def check_message_composition(ctx, rid):
@@ -682,3 +690,43 @@ def check_message_composition(ctx, rid):
             ctx.violate(rid, f"{c.name} overrides {'__str__' if '__str__' in c.methods else '__init__'} of BaseFileError: its messages are composed differently", relpath=um.relpath, function=c.qualname, node=c.node, construct=f"{c.name} overrides composition")
     if okc:
         ctx.ok(rid, f"BaseFileError composes its text from these two functions; {len(subs)} subclasses inherit it unchanged", f"{um.relpath}:{base.node.lineno}")
+
+
+def check_validator_schema(ctx, rid):
+    """Every array field of the data classes is declared with the shape validator its documentation implies
+    (frozen in spec/validators.json): the argument tuples of `validate_shape` are literal-evaluated and compared, so a
+    loosened axis (`validate_shape(None, None)` for bonds) or a validator dropped from a field is reported."""
+    import json
+    import os
+
+    prog = ctx.prog
+    with open(os.path.join(os.path.dirname(os.path.dirname(os.path.dirname(os.path.abspath(__file__)))), "spec", "validators.json")) as fh:
+        spec = json.load(fh)
+    n = 0
+    for cq, fields in spec.items():
+        if cq.startswith("_"):
+            continue
+        ci = prog.cls(cq)
+        decl = {}
+        for st in ci.node.body:
+            if isinstance(st, ast.AnnAssign) and isinstance(st.target, ast.Name) and st.value is not None:
+                calls = [x for x in ast.walk(st.value) if isinstance(x, ast.Call) and isinstance(x.func, ast.Name) and x.func.id == "validate_shape"]
+                if calls:
+                    try:
+                        decl[st.target.id] = ([ast.literal_eval(a) for a in calls[0].args], st)
+                    except ValueError as exc:
+                        raise AnalysisError(f"{cq}.{st.target.id}: validate_shape arguments are not literals") from exc
+        for name, want in fields.items():
+            n += 1
+            want_t = [tuple(x) if isinstance(x, list) else x for x in want]
+            if name not in decl:
+                ctx.violate(rid, f"{ci.name}.{name.lstrip('_')} has no shape validator (documented shape {tuple(want_t)}): arrays of any shape are accepted", relpath=ci.module.relpath, function=ci.qualname, node=ci.node, construct=f"{ci.name}.{name}: no validate_shape")
+                continue
+            got, st = decl[name]
+            if got == want_t:
+                ctx.ok(rid, f"{ci.name}.{name.lstrip('_')}: validate_shape{tuple(want_t)}", f"{ci.module.relpath}:{st.lineno}", sample=False)
+            else:
+                ctx.violate(rid, f"{ci.name}.{name.lstrip('_')} is declared with validate_shape{tuple(got)}, the documented shape is {tuple(want_t)}", relpath=ci.module.relpath, function=ci.qualname, node=st, construct=f"{ci.name}.{name}: validate_shape{tuple(got)}")
+        for name in sorted(set(decl) - set(fields)):
+            ctx.violate(rid, f"{ci.name}.{name} has a shape validator that spec/validators.json does not list (new field: add its documented shape)", relpath=ci.module.relpath, function=ci.qualname, node=decl[name][1], construct=f"{ci.name}.{name}: unlisted validator")
+    ctx.floor(rid, n, 20, "validated array fields")
